@@ -190,6 +190,55 @@ def random_cases(ctx, rng, n, every_module_path=True):
     return cases
 
 
+def _parent_relative_case(case):
+    treeA, treeB, mp = case
+    with sc.write_project(treeA) as pa:
+        a = sc.real_scan(pa, "proj", mp)
+    with sc.write_project(treeB) as pb:
+        b = sc.real_scan(pb, "proj", mp)
+        line = sc.scan_line("scan", pb.path("proj"), treeB, "proj", mp)
+    return a, b, line
+
+
+def parent_relative(ctx, stream, n):
+    """sub-scan with imports spelled relative to module_path's parent vs fully qualified: same architecture"""
+    rng = ctx.rng("parent-relative")
+    cases = []
+    while len(cases) < n:
+        tree = sc.gen_tree(rng, comps=["app", "apps", "core", "plugins", "db", "app_x", "m"], max_depth=5, init_prob=0.5, extra_files=False)
+        dirs = sorted(p for p, v in tree.items() if v is None and p != "proj")
+        if not dirs:
+            continue
+        mp = rng.choice(dirs)
+        pre = mp.replace("/", ".")
+        parent = ".".join(pre.split(".")[:-1])
+        inside = sorted(sc.module_of(p) for p, v in tree.items() if (v is None or p.endswith(".py")) and (p == mp or p.startswith(mp + "/")))
+        files = [p for p in tree if p.endswith(".py") and p.startswith(mp + "/")]
+        if not files or len(inside) < 2:
+            continue
+        ta, tb = dict(tree), dict(tree)
+        for f in files:
+            targets = rng.sample(inside, min(len(inside), rng.randint(1, 3)))
+            qa = "".join(f"import {t}\n" for t in targets)
+            qb = "".join(f"import {t[len(parent) + 1:]}\n" for t in targets)
+            ta[f], tb[f] = qa, qb
+        cases.append((ta, tb, mp))
+    res = pmap(_parent_relative_case, cases, ctx.jobs, chunk=10)
+    ans = run_driver([r[2] for r in res])
+    for (ta, tb, mp), (a, b, line), an in zip(cases, res, ans):
+        stream.evaluations += 1
+        stream.nontrivial.add(digest((sorted(tb.items()), mp)))
+        if a != b:
+            ctx.violations.append({"kind": "property-violation", "what": "imports written relative to module_path's parent resolve differently from the fully qualified spelling",
+                                   "files_parent_relative": tb, "files_qualified": ta, "module_path": mp, "scan_parent_relative": b, "scan_qualified": a})
+            if len(ctx.violations) >= 3:
+                return
+        elif b != parse_answer(an).get("M"):
+            if len(ctx.broken) < 5:
+                ctx.broken.append({"kind": "correspondence-broken", "what": "correspondence sub-scan with parent-relative imports = PtaModel.generateGraph",
+                                   "theorem": "Pta.C04.*", "files": tb, "module_path": mp, "impl": b, "model": parse_answer(an).get("M")})
+
+
 def coverage_note(ctx):
     src = "X = Y = E = 1\n" + "".join(sc.place("import os", [p]) for p in sc.POS_NAMES)
     reached = sc.positions_reached(src)
@@ -217,4 +266,8 @@ def run(ctx: Ctx, aspect="C02"):
         judge(ctx, s, evaluate(ctx, cs), aspect)
         done += 300
     s.finish()
+    if aspect == "C04" and not ctx.violations:
+        s = Stream(ctx, "sub-scans: imports spelled relative to module_path's parent vs fully qualified (repeated directory names)")
+        parent_relative(ctx, s, 200 if quick else 4000)
+        s.finish()
     return RULE
